@@ -709,14 +709,40 @@ func c10R5(p *core.Prog, r *core.Report) {
 			pos := "-"
 			if isIf {
 				pos = p.Pos(ifi.Cond.Pos())
-				cnd, _ := core.StripNot(ifi.Cond, true)
-				if x, _, isNil := errCmpNil(cnd); isNil {
-					for _, oc := range originCalls(x) {
-						if oc == page {
-							ok = true
-							detail = "decided by the page request's result"
-						}
+				// the condition is a nil test of something the page request returned, directly or carried
+				// in a loop flag (`for more := true; more; more = link != nil`)
+				var byPage func(v ssa.Value, d int) bool
+				byPage = func(v ssa.Value, d int) bool {
+					if d > 4 {
+						return false
 					}
+					cnd, _ := core.StripNot(v, true)
+					if x, _, isNil := errCmpNil(cnd); isNil {
+						for _, oc := range originCalls(x) {
+							if oc == page {
+								return true
+							}
+						}
+						return false
+					}
+					if ph, isPhi := cnd.(*ssa.Phi); isPhi {
+						any := false
+						for _, ed := range ph.Edges {
+							if _, isC := ed.(*ssa.Const); isC {
+								continue
+							}
+							if !byPage(ed, d+1) {
+								return false
+							}
+							any = true
+						}
+						return any
+					}
+					return false
+				}
+				if byPage(ifi.Cond, 0) {
+					ok = true
+					detail = "decided by the page request's result"
 				}
 			}
 			r.Check(ok, rule, fname, lab.next("loop exit"), pos, detail)
